@@ -69,6 +69,7 @@ fn hist(args: &[String]) {
     let mut out: Vec<Vec<String>> = vec![Vec::new(); shards];
     let (mut c01, mut c03) = (Vec::new(), Vec::new());
     let (mut n_c01, mut n_c03, mut n_changeback) = (0u64, 0u64, 0u64);
+    let (mut n_cyc_inc, mut n_cyc_judged, mut cyc_inc_first) = (0u64, 0u64, String::from("null"));
     let mut changeback = String::from("null");
     let (mut ops, mut execs, mut noexec, mut queries, mut nodes) = (0u64, 0u64, 0u64, 0u64, 0u64);
     let mut kinds: HashMap<&'static str, u64> = HashMap::new();
@@ -102,6 +103,8 @@ fn hist(args: &[String]) {
         if !j.violations_c01.is_empty() && c01.len() < 3 { c01.push(format!("{{\"index\":{k},\"violation\":{:?},\"scenario\":{:?}}}", j.violations_c01[0], line)); }
         if !j.violations_c03.is_empty() && c03.len() < 3 { c03.push(format!("{{\"index\":{k},\"violation\":{:?},\"scenario\":{:?}}}", j.violations_c03[0], line)); }
         n_c01 += !j.violations_c01.is_empty() as u64; n_c03 += !j.violations_c03.is_empty() as u64;
+        n_cyc_judged += j.judged_cyclic;
+        if !j.cyclic_incremental.is_empty() { n_cyc_inc += 1; if cyc_inc_first == "null" { cyc_inc_first = format!("{{\"index\":{k},\"what\":{:?}}}", j.cyclic_incremental[0]); } }
         if !j.known_c03_changeback.is_empty() { n_changeback += 1; if changeback.is_empty() { changeback = format!("{{\"index\":{k},\"what\":{:?},\"scenario\":{:?}}}", j.known_c03_changeback[0], line); } }
         if only.is_some() {
             for (n, e) in &s.prog.exprs { eprintln!("{} := {}", n.short(), e.coq()); }
@@ -114,7 +117,7 @@ fn hist(args: &[String]) {
         out[(k as usize) % shards].push(line);
     }
     for (k, lines) in out.iter().enumerate() { std::fs::write(format!("{dir}/shard_{k}.txt"), lines.join("\n") + "\n").unwrap(); }
-    println!("{{\"histories\":{n},\"ops\":{ops},\"queries\":{queries},\"executions\":{execs},\"queries_served_without_execution\":{noexec},\"nodes\":{nodes},\"kinds\":{:?},\"n_c01\":{n_c01},\"n_c03\":{n_c03},\"n_changeback\":{n_changeback},\"changeback\":{changeback},\"c01\":[{}],\"c03\":[{}],\"hangs\":[{}]}}",
+    println!("{{\"histories\":{n},\"ops\":{ops},\"queries\":{queries},\"executions\":{execs},\"queries_served_without_execution\":{noexec},\"nodes\":{nodes},\"kinds\":{:?},\"n_c01\":{n_c01},\"n_c03\":{n_c03},\"n_changeback\":{n_changeback},\"answers_judged_with_cycle_defaults\":{n_cyc_judged},\"n_cyclic_incremental\":{n_cyc_inc},\"cyclic_incremental_first\":{cyc_inc_first},\"changeback\":{changeback},\"c01\":[{}],\"c03\":[{}],\"hangs\":[{}]}}",
         kinds, c01.join(","), c03.join(","), hangs.join(","));
 }
 
@@ -177,7 +180,7 @@ fn replay(args: &[String]) {
     match done {
         Ok((res, j)) => {
             for (i, (op, r)) in s.ops.iter().zip(res.iter()).enumerate() { println!("step {i}: {:?} -> {:?} execs={:?}", op, r.outcome, r.events.iter().filter_map(|e| if let Event::Exec(n) = e { Some(n.short()) } else { None }).collect::<Vec<_>>()); }
-            println!("C01: {:?}\nC03: {:?}\nknown changeback: {:?}", j.violations_c01, j.violations_c03, j.known_c03_changeback);
+            println!("C01: {:?}\nC03: {:?}\nknown changeback: {:?}\ncyclic incremental: {:?}", j.violations_c01, j.violations_c03, j.known_c03_changeback, j.cyclic_incremental);
             std::process::exit(if j.violations_c01.is_empty() && j.violations_c03.is_empty() { 0 } else { 1 });
         }
         Err(_) => { println!("HANG: no progress within {secs} s"); std::mem::forget(runtime); std::process::exit(2); }
